@@ -49,6 +49,22 @@ class Ctx:
     def fn(self, f):
         self.stats['functions'].add(f if isinstance(f, str) else f['name'])
 
+    def borrow(self, rule, floor, call, only=None):
+        """run another property's rule function and record its obligations under this property's rule name (the borrowed rule is a
+        necessary condition of this property too; the caller says why).  `only`: keep the obligations whose key satisfies it."""
+        before = len(self.obs)
+        fl = dict(self.floors)
+        call()
+        new = self.obs[before:]
+        if only is not None:
+            new = [o for o in new if only(o)]
+            self.obs[before:] = new
+        for o in new:
+            o['rule'] = rule
+        self.floors = fl
+        self.floor(rule, floor)
+        return len(new)
+
     def note(self, s):
         self.notes.append(s)
 
